@@ -113,8 +113,8 @@ def check_case(ctx, case, record=True):
         ctx.violation(case2, f"events logged after run returned: {[(e[1], e[2]) for e in w.events[mark['n']:]]}")
     if cyclic:
         to = specs.ref_index(spec["back"][0][1])
-        if case["registry"]:
-            examined = True
+        if case["registry"] and refmodel.entries(spec):
+            examined = True  # a non-empty registry makes the stale check examine the whole plan
         else:
             o = spec.get("output")
             roots = [specs.ref_index(r) for r in specs.arg_refs(o)] if o else []
